@@ -49,6 +49,42 @@ size_t draw_n(Rng &r)
 	return 200 + r.below(201);
 }
 
+// A one-block table whose finished block (entries + restart array + count) is within a few bytes of 64 KiB x 2^k:
+// the sizes at which growing buffers of the block builder are exactly full.  The layout is computed the way today's
+// writer lays a block out (restart every `rint` entries, maximal sharing in between); if that ever changes the probe
+// "final-block-at-capacity-boundary" shows that the target is being missed.
+static size_t varint_len(uint64_t v) { size_t n = 1; while (v >= 128) { v >>= 7; n++; } return n; }
+void gen_boundary_adds(Plan &p, Rng &r, size_t rint, uint64_t target)
+{
+	KeyGen kg(r);
+	std::set<Bytes, bool (*)(const Bytes &, const Bytes &)> keys(bytes_less);
+	size_t n = 24 + r.below(100);
+	for (size_t tries = 0; keys.size() < n && tries < n * 4 + 8; tries++) keys.insert(kg.key());
+	std::vector<Bytes> ks(keys.begin(), keys.end());
+	n = ks.size();
+	size_t each = (size_t)(target / n);
+	uint64_t size = 0;
+	Bytes prev;
+	std::vector<size_t> vl(n, 0);
+	for (size_t i = 0; i < n; i++) {
+		size_t sh = (i % rint) == 0 ? 0 : mfmt::lcp(prev, ks[i]);
+		size_t ns = ks[i].size() - sh;
+		size += varint_len(sh) + varint_len(ns) + ns;
+		prev = ks[i];
+		if (i + 1 < n) { vl[i] = each / 2 + r.below(each / 2 + 1); size += varint_len(vl[i]) + vl[i]; }
+	}
+	size += 4 * ((n + rint - 1) / rint) + 4;
+	// the last value takes what is left
+	uint64_t left = target > size ? target - size : 1;
+	size_t v = 0;
+	for (size_t w = 1; w <= 4; w++) if (left > w && varint_len(left - w) == w) { v = (size_t)(left - w); break; }
+	vl[n - 1] = v;
+	for (size_t i = 0; i < n; i++) {
+		char t[48]; snprintf(t, sizeof t, "p%zus%d", vl[i], (int)r.below(1000));
+		p.op("add", { spec_of(ks[i]), vl[i] ? std::string(t) : std::string("x") });
+	}
+}
+
 void gen_sorted_adds(Plan &p, Rng &r, size_t n, int big_pm)
 {
 	KeyGen kg(r);
@@ -138,6 +174,13 @@ static Plan gen_table(const std::string &prop, const std::string &tier, uint64_t
 				p.op("add", { spec_of(k), spec_of(kg.value(big)) });
 				last = k;
 			}
+		} else if (r.chance(1, 25)) {
+			int m = (int)r.below(3);	// 64 KiB, 128 KiB, 256 KiB
+			uint64_t cap = 65536ull << m;
+			p.seti("bsize", m == 0 ? (r.chance(1, 2) ? 131072 : 262144) : m == 1 ? 262144 : 1048576);
+			p.set("bsize_set", "1");
+			p.seti("capacity", cap);
+			gen_boundary_adds(p, r, (size_t)p.geti("rint", 16), cap + r.below(17) - 8);
 		} else gen_sorted_adds(p, r, n, big);
 		if (thorough && r.chance(1, 400)) {
 			// one 2 MiB entry: 4-byte length varints
@@ -589,6 +632,13 @@ static RunResult exec_table(const Plan &p)
 
 	// ---- non-trivial rule per property
 	if (nblocks >= 2) res.probes["two-or-more-blocks"]++;
+	if (p.geti("capacity", 0) > 0 && c.have_df && !c.df.data.empty()) {
+		uint64_t cap = (uint64_t)p.geti("capacity", 0), raw = c.df.data.back().raw_size;
+		if (raw + 8 >= cap && raw <= cap + 8) {
+			res.probes["final-block-at-capacity-boundary"]++;
+			if (raw > cap && raw <= cap + 4) res.probes["final-block-1-to-4-bytes-over-a-buffer-capacity"]++;
+		}
+	}
 	if (prop == "C01" || prop == "C09" || prop == "C10")
 		res.nontrivial = nblocks >= 2 && (p.geti("pool", -1) >= 0 || p.gets("wfrag", "none") != "none" || p.geti("prefix", 0) > 0 || rint != 16);
 	else if (prop == "C02") res.nontrivial = nblocks >= 2 && res.probes.count("query-nonempty");
